@@ -223,6 +223,7 @@ def s3(prog, rep):
                     digit.add((o, chr(y[1])))
                 if y == ("*", ("v", f.params[0]["name"], f.params[0]["id"])) and x[0] == "c" and x[1] in (ord("0"), ord("9")):
                     digit.add(({"<=": ">=", ">=": "<=", "<": ">", ">": "<"}.get(o, o), chr(x[1])))
+    digit = set(d for d in digit if d[1] in "09")
     rep.check(digit == {("<", "0"), (">", "9"), (">=", "0"), ("<=", "9")}, "S3-states", "digits are '0'..'9'", f.loc, "tests %s" % sorted(digit), function=f.name, construct="digit-range")
     # the digit value added is *s - '0'
     adds = [e for e in f.all_elems() if e.is_assign and e.op == "+=" and norm(e.kid(0)) == sz]
